@@ -315,7 +315,10 @@ class URI(with_metaclass(URIType)):
 				yield b':'
 				yield quote(password, Percent.USERINFO)
 			yield b'@'
-		yield host.encode('idna')
+		try:
+			yield host.encode('idna')
+		except UnicodeError:
+			raise InvalidURI(_('Invalid host.'))
 		if port and integer(port) != self.PORT:
 			yield b':%d' % integer(port)
 
